@@ -9,8 +9,8 @@ from common import (NCPU, REPLAYS, HarnessError, bisect_crash, cargo_build, extr
 PROP = "C12"
 
 BUDGET = {
-    "quick": {"enum": "quick", "sampled": 2_000_000, "miri_shapes": 128, "miri_procs": 8, "w2": 500_000, "w2_miri": 32, "cpp": 40_000, "allocfault": 600},
-    "thorough": {"enum": "thorough", "sampled": 300_000_000, "miri_shapes": 3000, "miri_procs": 16, "w2": 50_000_000, "w2_miri": 600, "cpp": 4_000_000, "allocfault": 30000},
+    "quick": {"enum": "quick", "sampled": 2_000_000, "miri_shapes": 128, "miri_procs": 8, "w2": 500_000, "w2_miri": 32, "cpp": 40_000, "allocfault": 600, "cwrite": 200_000},
+    "thorough": {"enum": "thorough", "sampled": 300_000_000, "miri_shapes": 3000, "miri_procs": 16, "w2": 50_000_000, "w2_miri": 600, "cpp": 4_000_000, "allocfault": 30000, "cwrite": 20_000_000},
 }
 
 
@@ -158,6 +158,19 @@ def check(tier, seed):
             counters["cpp_" + k] = counters.get("cpp_" + k, 0) + v
         log("[C12] C++ string output (ASan): %d traces, %d violations (%.1fs)" % (cpp_cov["runs"], len(viols), time.time() - t1))
 
+    # ---- phase 6: the C caller's side through the generated C headers (struct DiplomatWrite, diplomat_simple_write,
+    # diplomat_buffer_write_*, a write-out method), gcc C11 + ASan
+    c_cov = None
+    if not violations:
+        t1 = time.time()
+        import c03_cpp
+        c_cov, viols = c03_cpp.run_c(seed, b["cwrite"])
+        violations += viols
+        totals["evaluations"] += c_cov["runs"]
+        for k, v in c_cov["counters"].items():
+            counters["c_" + k] = counters.get("c_" + k, 0) + v
+        log("[C12] C API string output (generated C headers, ASan): %d traces, %d violations (%.1fs)" % (c_cov["runs"], len(viols), time.time() - t1))
+
     wall = time.time() - t0
     fault_counts = {k: v for k, v in counters.items() if k.startswith("fault_")}
     probes = {k: v for k, v in counters.items() if k.startswith("probe_")}
@@ -176,6 +189,7 @@ def check(tier, seed):
         "phases": phases,
         "fault_kinds_fired": {**fault_counts, **{k: v for k, v in counters.items() if k.startswith("l2_fault_") or k.startswith("cpp_fault_")}},
         "cpp_layer": cpp_cov,
+        "c_layer": c_cov,
         "failing_allocation_fault": allocfault,
         "reach_probes": probes,
         "other_counters": {k: v for k, v in counters.items() if not k.startswith("fault_") and not k.startswith("probe_")},
@@ -184,6 +198,7 @@ def check(tier, seed):
         "components": {
             "real": ["runtime/src/write.rs: impl fmt::Write for DiplomatWrite, DiplomatWrite::flush, diplomat_simple_write, diplomat_buffer_write_create/get_bytes/len/destroy (compiled from the tree under test)",
                      "tool/templates/cpp/runtime.hpp.jinja WriteFromString/_grow/_flush and the generated std::string-returning wrappers (diplomat-tool cpp output for vbridge, g++ c++17/c++20, ASan)",
+                     "tool/templates/c/runtime.h.jinja and the generated C method headers (diplomat-tool c output for vbridge, gcc C11, ASan)",
                      "macro/src/lib.rs: flush emission in the extern \"C\" wrappers of &mut DiplomatWrite methods (vbridge describe/describe_n/try_describe, real proc macro)"],
             "stub": ["the buffer owner (grow/flush callbacks, allocation, relocation) — played by the simulator from the trace"],
             "executed_under": ["native release build with debug assertions, 16-byte canaries, 0xA5 never-written filler behind cap, poisoned graveyard of released buffers", "Miri (exact-size allocations, freed-on-relocate buffers)"],
@@ -207,7 +222,7 @@ def replay(path):
     if "(write-l2)" in head:
         import c03
         return c03.replay(path)
-    if "cpp-trace" in head:
+    if "cpp-trace" in head or "c-write-trace" in head:
         import c03_cpp
         return c03_cpp.replay(path)
     bindir = cargo_build(["write-sim"])
